@@ -233,6 +233,23 @@ def run(prop, tier, seed, rep):
         segs = [[list(stream[:cut]), "short"], [list(stream[cut:]), "short"]]
         sent = line_info([x + b"\n" for x in stream.split(b"\n")[:-1]])
         jobs.append(("1090" if i % 2 == 0 else "radar", segs, sent, "bulk", "hold"))
+    # an over-long line (around the sizes buffers tend to have) that pauses in the middle, and whose rest would be a line
+    # of its own if the beginning were forgotten: it is one (malformed) line all the same
+    for i in range(6 if tier == "quick" else 120):
+        vs = valid_lines(rng, 3)
+        l1, l2 = (b"*" + v.encode() + b";\n" for v in vs[:2])
+        k = rng.choice((1000, 1023, 1024, 1025, 1100, 2048, 4095, 4096, 4097, 8191, 8192, 8193, 16384, 70000))
+        filler = bytes(rng.choice(b"0123456789abcdefzZ*;" if i % 3 else b"0123456789abcdef") for _ in range(k))
+        tail = rng.choice((b"z", b"*", b"0", b"**")) + vs[2].encode() + b";\n"
+        long_line = b"*" + filler + tail
+        segs = [[list(l1 + b"*" + filler), "long"], [list(tail + l2), rng.choice(("short", "long"))]]
+        if rng.random() < 0.3:
+            # ... or the pause comes a little earlier or later than where the rest begins
+            cut = len(l1) + 1 + k + rng.choice((-3, -1, 1, 2))
+            stream = l1 + long_line + l2
+            segs = [[list(stream[:cut]), "long"], [list(stream[cut:]), "short"]]
+        raw = [l1] + [x + b"\n" for x in long_line.split(b"\n")[:-1]] + [l2]
+        jobs.append(("1090" if i % 2 == 0 else "radar", segs, line_info(raw), "long-split", "hold"))
     # server disconnects: radar exits cleanly, or reconnects with --retry-tcp and keeps its aircraft
     for i in range(3 if tier == "quick" else 40):
         vs = valid_lines(rng, 4)
